@@ -19,6 +19,7 @@ import (
 	"encoding/json"
 	"fmt"
 	"os"
+	"os/exec"
 	"path/filepath"
 	"regexp"
 	"runtime"
@@ -305,6 +306,14 @@ type c1runner struct {
 	c       *Cfg
 	k       int // rearrangements per program
 	timeout time.Duration
+	idx     int
+	note    func(i int, name string, texts []string) // progress record before an evaluation
+}
+
+func (x *c1runner) mark(p c1prog, texts []string) {
+	if x.note != nil {
+		x.note(x.idx, p.name, texts)
+	}
 }
 
 func c1kinds(names ...string) map[string]bool {
@@ -330,6 +339,7 @@ func c1appliedString(m map[string]int) string {
 // rearrangements.
 func (x *c1runner) check(p c1prog, r *Rng) int {
 	c := x.c
+	x.mark(p, []string{p.src})
 	base, ok := c1EvalTimeout([]string{p.src}, x.timeout)
 	if !ok {
 		c.Count(p.stream + ":timeout")
@@ -406,6 +416,7 @@ func (x *c1runner) check(p c1prog, r *Rng) int {
 		if joined != p.src {
 			nontrivial = true
 		}
+		x.mark(p, texts)
 		res, ok := c1EvalTimeout(texts, x.timeout)
 		if !ok {
 			c.Count(p.stream + ":timeout-rearranged")
@@ -772,9 +783,106 @@ func c1Corpus(repo string) []c1prog {
 
 // ---- main ----------------------------------------------------------------------------------
 
+// c1slot: one program of a stream; generated programs are drawn lazily (in the worker
+// process) from the slot's own generator seed.
+type c1slot struct {
+	prog  c1prog
+	gen   *Rng // nil for corpus programs
+	free  bool
+	depth int
+	seed  *Rng // rearrangement seed
+}
+
+func c1Slots(c *Cfg, repo string, r *Rng) []c1slot {
+	var slots []c1slot
+	for _, p := range c1Corpus(repo) {
+		slots = append(slots, c1slot{prog: p})
+	}
+	nGen := c.Pick(1600, 30000)
+	nMarks := c.Pick(300, 4000)
+	if c.Focus {
+		nGen, nMarks = c.Pick(6000, 60000), 0
+	}
+	gr := r.Sub()
+	for i := 0; i < nGen; i++ {
+		slots = append(slots, c1slot{prog: c1prog{name: fmt.Sprintf("gen#%d", i), stream: "gen"}, gen: gr.Sub(), depth: 2 + i%2})
+	}
+	mr := r.Sub()
+	for i := 0; i < nMarks; i++ {
+		slots = append(slots, c1slot{prog: c1prog{name: fmt.Sprintf("marks#%d", i), stream: "marks"}, gen: mr.Sub(), free: true, depth: 2 + i%2})
+	}
+	pr := r.Sub()
+	for i := range slots {
+		slots[i].seed = pr.Sub()
+	}
+	return slots
+}
+
+type c1progress struct {
+	Index int      `json:"index"`
+	Name  string   `json:"name"`
+	Texts []string `json:"texts"`
+}
+
+// c1Worker processes the slots i ≡ w (mod n), i ≥ start, in THIS process, one at a time. The
+// program about to be evaluated is written to <out>/progress.json first, so that the parent
+// can name the input when the evaluator takes the process down (stack overflow is fatal in
+// Go and cannot be recovered).
+func c1Worker(c *Cfg, w, n, start int) {
+	repo := os.Getenv("VERIF_REPO")
+	if repo == "" {
+		repo = "/repo"
+	}
+	slots := c1Slots(c, repo, NewRng(c.Seed))
+	x := &c1runner{c: c, k: c.Pick(4, 8), timeout: 10 * time.Second}
+	progress := filepath.Join(c.Out, "progress.json")
+	x.note = func(i int, name string, texts []string) {
+		b, _ := json.Marshal(c1progress{i, name, texts})
+		os.WriteFile(progress, b, 0o666)
+	}
+	done := 0
+	for i := start; i < len(slots); i++ {
+		if i%n != w {
+			continue
+		}
+		sl := slots[i]
+		x.idx = i
+		if sl.gen != nil {
+			// mostly valid programs: an erroneous draw is redrawn (up to 5 times) 3 times
+			// out of 4
+			keepErr := !sl.free && sl.gen.Chance(1, 4)
+			var g *c1gen
+			for try := 0; try < 6; try++ {
+				g = &c1gen{r: sl.gen.Sub(), free: sl.free, counts: map[string]int{}, maxDepth: sl.depth}
+				sl.prog.src = g.Program()
+				if keepErr || sl.free {
+					break
+				}
+				x.note(i, sl.prog.name, []string{sl.prog.src})
+				if res := c1Eval([]string{sl.prog.src}); res.info != nil && res.info.nErr == 0 {
+					break
+				}
+			}
+			if !sl.free {
+				for k, n := range g.counts {
+					for j := 0; j < n; j++ {
+						c.Count("gen:" + k)
+					}
+				}
+			}
+		}
+		x.check(sl.prog, sl.seed)
+		done++
+		if done%25 == 0 {
+			c1Snapshot(c)
+		}
+	}
+	os.Remove(progress)
+}
+
 func runC01(c *Cfg) {
 	// a runaway recursion of the evaluator dies quickly instead of eating 1 GB of stack
-	debug.SetMaxStack(256 << 20)
+	debug.SetMaxStack(64 << 20)
 	if c.Replay != "" {
 		c1Replay(c)
 		return
@@ -784,78 +892,131 @@ func runC01(c *Cfg) {
 		repo = "/repo"
 	}
 	r := NewRng(c.Seed)
-	x := &c1runner{c: c, k: c.Pick(4, 8), timeout: 10 * time.Second}
-
-	var progs []c1prog
-	// corpus first
-	corpus := c1Corpus(repo)
-	progs = append(progs, corpus...)
-	// generated programs
-	nGen := c.Pick(2000, 30000)
-	nMarks := c.Pick(300, 4000)
-	if c.Focus {
-		nGen, nMarks = c.Pick(6000, 60000), 0
-	}
-	gr := r.Sub()
-	for i := 0; i < nGen; i++ {
-		var g *c1gen
-		var src string
-		// mostly valid programs: an erroneous draw is redrawn (up to 5 times) 3 times out of 4
-		keepErr := gr.Chance(1, 4)
-		for try := 0; try < 6; try++ {
-			g = &c1gen{r: gr.Sub(), counts: map[string]int{}, maxDepth: 2 + i%2}
-			src = g.Program()
-			if keepErr {
-				break
-			}
-			if dbg := os.Getenv("C01_DEBUG_LAST"); dbg != "" {
-				os.WriteFile(dbg, []byte(src), 0o666)
-			}
-			if res := c1Eval([]string{src}); res.info != nil && res.info.nErr == 0 {
-				break
-			}
-		}
-		for k, n := range g.counts {
-			for j := 0; j < n; j++ {
-				c.Count("gen:" + k)
-			}
-		}
-		progs = append(progs, c1prog{name: fmt.Sprintf("gen#%d", i), stream: "gen", src: src})
-	}
-	mr := r.Sub()
-	for i := 0; i < nMarks; i++ {
-		g := &c1gen{r: mr.Sub(), free: true, counts: map[string]int{}, maxDepth: 2 + i%2}
-		progs = append(progs, c1prog{name: fmt.Sprintf("marks#%d", i), stream: "marks", src: g.Program()})
-	}
-	// per-program sub seeds fixed before the parallel section
-	seeds := make([]*Rng, len(progs))
-	pr := r.Sub()
-	for i := range seeds {
-		seeds[i] = pr.Sub()
-	}
-	var wg sync.WaitGroup
-	ch := make(chan int, 256)
+	nSlots := len(c1Slots(c, repo, NewRng(c.Seed)))
 	nw := runtime.NumCPU()
 	if nw > 16 {
 		nw = 16
 	}
+	exe, err := os.Executable()
+	if err != nil {
+		fmt.Fprintln(os.Stderr, err)
+		os.Exit(2)
+	}
+	var wg sync.WaitGroup
+	var mu sync.Mutex
 	for w := 0; w < nw; w++ {
 		wg.Add(1)
-		go func() {
+		go func(w int) {
 			defer wg.Done()
-			for i := range ch {
-				x.check(progs[i], seeds[i])
+			start := 0
+			for attempt := 0; attempt < 40 && start < nSlots; attempt++ {
+				dir := filepath.Join(c.Out, fmt.Sprintf("w%02d-%02d", w, attempt))
+				os.MkdirAll(dir, 0o777)
+				args := []string{"C01", "-seed", fmt.Sprint(c.Seed), "-tier", c.Tier, "-out", dir,
+					"-replay", fmt.Sprintf("worker:%d:%d:%d", w, nw, start)}
+				if c.Focus {
+					args = append(args, "-focus")
+				}
+				cmd := exec.Command(exe, args...)
+				cmd.Env = os.Environ()
+				out, err := cmd.CombinedOutput()
+				mu.Lock()
+				c1Merge(c, dir)
+				mu.Unlock()
+				if err == nil {
+					return
+				}
+				// the worker died: name the input
+				var pg c1progress
+				b, rerr := os.ReadFile(filepath.Join(dir, "progress.json"))
+				if rerr != nil || json.Unmarshal(b, &pg) != nil {
+					c.Direct(false, "harness-crash", "worker died without progress record: "+c1clip2(string(out)), nil)
+					return
+				}
+				what := "the evaluator takes the process down"
+				cls := "evaluator-crash"
+				if strings.Contains(string(out), "stack overflow") {
+					what = "fatal stack overflow (unbounded recursion) in the evaluator"
+					cls = "evaluator-stack-overflow"
+					if c1hasBoundAndComprehension(pg.Texts) {
+						cls = "stack-overflow-bound-meets-struct-of-failing-comprehension"
+					}
+				}
+				c.Direct(false, cls, what, map[string]any{"name": pg.Name, "p": pg.Texts})
+				c.Count("worker-crash")
+				start = pg.Index + 1
 			}
-		}()
+		}(w)
 	}
-	for i := range progs {
-		ch <- i
-	}
-	close(ch)
 	wg.Wait()
-
+	c1Witnesses(c)
 	if !c.Focus {
 		c1ModelOps(c, r.Sub())
+	}
+}
+
+func c1hasBoundAndComprehension(texts []string) bool {
+	s := strings.Join(texts, "\n")
+	return (strings.Contains(s, "if ") || strings.Contains(s, "for ")) && strings.ContainsAny(s, "<>!=")
+}
+
+// c1Snapshot flushes the worker's files and writes stats.json, so that what was done so far
+// survives a crash of the process.
+func c1Snapshot(c *Cfg) {
+	c.mu.Lock()
+	defer c.mu.Unlock()
+	c.ops.Flush()
+	c.impl.Flush()
+	c.direct.Flush()
+	st := map[string]any{
+		"ops": c.nOps, "direct": c.nDirect, "direct_failures": c.nFail,
+		"distinct": len(c.distinct), "distinct_nontrivial": c.nontriv,
+		"distribution": c.counts, "samples": c.samples,
+	}
+	b, _ := json.Marshal(st)
+	os.WriteFile(filepath.Join(c.Out, "stats.json"), b, 0o666)
+}
+
+// c1Merge folds a worker's output directory into the parent's accounting.
+func c1Merge(c *Cfg, dir string) {
+	var st struct {
+		Direct   int            `json:"direct"`
+		Fail     int            `json:"direct_failures"`
+		Distinct int            `json:"distinct"`
+		Nontriv  int            `json:"distinct_nontrivial"`
+		Dist     map[string]int `json:"distribution"`
+		Samples  []string       `json:"samples"`
+	}
+	if b, err := os.ReadFile(filepath.Join(dir, "stats.json")); err == nil && json.Unmarshal(b, &st) == nil {
+		c.mu.Lock()
+		c.nDirect += st.Direct
+		c.nFail += st.Fail
+		c.nontriv += st.Nontriv
+		for i := 0; i < st.Distinct; i++ {
+			c.distinct[uint64(len(c.distinct))<<20|uint64(i)] = true
+		}
+		for k, n := range st.Dist {
+			c.counts[k] += n
+		}
+		if len(c.samples) < 12 {
+			c.samples = append(c.samples, st.Samples...)
+		}
+		c.mu.Unlock()
+	} else {
+		// the worker died before writing its statistics: count its failures at least
+		c.mu.Lock()
+		c.counts["worker-stats-lost"]++
+		c.mu.Unlock()
+	}
+	if b, err := os.ReadFile(filepath.Join(dir, "direct.jsonl")); err == nil && len(b) > 0 {
+		c.mu.Lock()
+		c.direct.Write(b)
+		if st.Direct == 0 {
+			n := strings.Count(string(b), "\n")
+			c.nDirect += n
+			c.nFail += n
+		}
+		c.mu.Unlock()
 	}
 }
 
@@ -870,6 +1031,12 @@ func c1Replay(c *Cfg) {
 	}
 	if mode == "gen" {
 		c1DumpGen(c.Seed, 12, false)
+		return
+	}
+	if mode == "worker" {
+		var w, n, start int
+		fmt.Sscanf(name, "%d:%d:%d", &w, &n, &start)
+		c1Worker(c, w, n, start)
 		return
 	}
 	b, err := os.ReadFile(name)
